@@ -127,12 +127,14 @@ def export_scenarios(run, cfg="MC_Ledger_export.cfg"):
     return [v for t, v in res.printed if t == "SCEN"]
 
 
-def pack_by_request(scens, pack_size):
+def pack_by_request(scens, pack_size, extra_key=None):
     """Group scenarios that can share one client run (same policy, office kind, request list)."""
     groups = {}
     for s in scens:
         sc = s["sc"] if "sc" in s else s
         k = (sc["policy"], sc["districtOffice"], tuple(sc["levels"]))
+        if extra_key is not None:
+            k = k + (extra_key(sc),)
         groups.setdefault(k, []).append(s)
     packs = []
     for k in sorted(groups):
@@ -429,4 +431,130 @@ def c09(tier, seed):
             "margin_outlier_model_consulted",
             "outlier_model_on_but_too_few_units",
         ]
+    )
+
+
+# ---------------------------------------------------------------------------------------------------------------
+# C11
+
+
+def _extra_in_new_state(sc, extra=None):
+    """the extra unit (last unit of sc unless given) lies in a postal code no other row of the run carries"""
+    if extra is None:
+        base = dict(sc, units=sc["units"][:-1])
+        extra = sc["units"][-1]
+    else:
+        base = sc
+    return extra["fstate"] not in ledger.states_with_units(base)
+
+
+def _job_pair(arg):
+    pack0, extras, estimator, seed = arg
+    try:
+        return ("ok", ledger.pair_traces(pack0, extras, estimator, seed, PIS))
+    except Exception as e:  # noqa: BLE001
+        return (
+            "exc",
+            {
+                "clause": "run_raised",
+                "estimator": estimator,
+                "exc": type(e).__name__,
+                "msg": str(e)[:300],
+                "policy": pack0[0]["policy"],
+                "districtOffice": pack0[0]["districtOffice"],
+                "levels": list(pack0[0]["levels"]),
+                "tb": traceback.format_exc()[-1500:],
+                "extras": extras,
+            },
+        )
+
+
+def c11(tier, seed):
+    run = report.Run("C11", tier, seed)
+    run.assumptions += [
+        "the extra unit's id is well-formed for the geographic unit type",
+        "paired runs use the same row order for the common rows (the extra feed row is appended)",
+        "bootstrap: the attributable groups' turnout / margin numerator move by the unit's two-party votes / margin (thousandths, slack #units+1); their interval bounds are model output and not constrained beyond C06",
+    ]
+    common.mc(run, "MC_LedgerDelta", "MC_LedgerDelta_quick.cfg" if tier == "quick" else "MC_LedgerDelta_thorough.cfg", timeout=2400)
+    res = tlc.run_tlc("MC_LedgerDelta", "MC_LedgerDelta_export.cfg", workers=1, timeout=900, keep_stdout=False)
+    run.add_tlc("MC_LedgerDelta_export", res)
+    scens = [v["sc"] for t, v in res.printed if t == "SCEN"]
+    rnd = random.Random(seed)
+    n_rep = 600 if tier == "quick" else 9000
+    if n_rep < len(scens):
+        scens = rnd.sample(scens, n_rep)
+    jobs = []
+    # one run holds either extra units in states that have baseline units or extra units in states that have none:
+    # under the bootstrap estimator a unit in a state without baseline units adds a contest (open finding F12)
+    for n, pk in enumerate(pack_by_request(scens, 20, extra_key=_extra_in_new_state)):
+        pack0, extras = [], []
+        for sc in pk:
+            sc0 = dict(sc)
+            sc0["units"] = list(sc["units"][:-1])
+            pack0.append(sc0)
+            extras.append(sc["units"][-1])
+        est = ESTIMATORS[n % 3]
+        if _extra_in_new_state(pk[0]) and est == "bootstrap":
+            # F12 class: keep one small bootstrap pack as a demonstration, run the others on the other estimators
+            if any(j[2] == "bootstrap" and _extra_in_new_state(j[0][0], j[1][0]) for j in jobs):
+                est = ESTIMATORS[n % 2]
+            else:
+                pack0, extras = pack0[:4], extras[:4]
+        jobs.append((pack0, extras, est, seed + n))
+    n_exported_jobs = len(jobs)
+    # random larger pairs
+    for n in range(30 if tier == "quick" else 300):
+        policy = rnd.choice(["drop", "zero"])
+        off = rnd.random() < 0.35
+        levels = rnd.choice(ledger.LEVEL_LISTS)
+        pack0 = [ledger.random_scenario(rnd, rnd.randint(3, 10), policy, off, levels) for _ in range(5)]
+        new_state = rnd.random() < 0.25
+        extras = []
+        for sc in pack0:
+            x = ledger.random_extra(rnd, new_state)
+            if not new_state:
+                known = sorted(ledger.states_with_units(sc) & {"S1", "S2"})
+                x["fstate"] = rnd.choice(known) if known else x["fstate"]
+            extras.append(x)
+        if not new_state and any(_extra_in_new_state(sc, x) for sc, x in zip(pack0, extras)):
+            continue
+        jobs.append((pack0, extras, ESTIMATORS[n % 2] if new_state else ESTIMATORS[n % 3], seed + 1000 + n))
+    results = common.pool().map(_job_pair, jobs, chunksize=1)
+    traces = []
+    for k, (job, (status, val)) in enumerate(zip(jobs, results)):
+        if status == "ok":
+            traces.extend(val)
+            if k < n_exported_jobs:
+                run.cov["scenarios_replayed_into_impl"] += len(val)
+        else:
+            facts = {f: val[f] for f in ("clause", "estimator", "policy", "districtOffice", "exc")}
+            facts["levels_has_classification"] = "county_classification" in val["levels"]
+            facts["extra_states"] = sorted({x["fstate"] for x in val["extras"]})
+            run.violation("run_raised", facts, val)
+    for t in traces:
+        x = t["extra"]
+        if _extra_in_new_state(t["sc0"], x):
+            run.witness("extra_unit_in_state_without_baseline_units")
+        if x["idCounty"] == "c9":
+            run.witness("extra_unit_in_new_county")
+        run.witness("pair_" + t["sc0"]["estimator"])
+
+    def on_reject(tr, clause, inv):
+        facts = {
+            "clause": clause,
+            "estimator": tr["sc0"]["estimator"],
+            "policy": tr["sc0"]["policy"],
+            "districtOffice": tr["sc0"]["districtOffice"],
+            "extra_state_known": not _extra_in_new_state(tr["sc0"], tr["extra"]),
+            "invariant": inv,
+        }
+        run.violation(clause, facts, {"trace": tr})
+
+    n_ok = tracecheck.validate("Trace_LedgerDelta", "Trace_LedgerDelta.cfg", traces, on_reject, run=run)
+    run.cov["traces_validated_against_impl"] += max(0, n_ok - run.cov["scenarios_replayed_into_impl"])
+    if traces:
+        run.sample({"extra_unit": traces[0]["extra"], "obs0_state": traces[0]["obs0"]["tables"].get("postal_code"), "obs1_state": traces[0]["obs1"]["tables"].get("postal_code")})
+    run.finish(
+        require_witnesses=["extra_unit_in_state_without_baseline_units", "extra_unit_in_new_county", "pair_nonparametric", "pair_gaussian", "pair_bootstrap"]
     )
